@@ -271,3 +271,92 @@ def strip_attrs_and_comments(src: str) -> str:
     txt = '\n'.join(l.rstrip() for l in txt.split('\n'))
     txt = re.sub(r'\n\s*\n+', '\n', txt)
     return txt.strip('\n')
+
+
+# ---------------------------------------------------------------------------- cfg evaluation
+def _split_top(s):
+    out, depth, cur = [], 0, ''
+    for ch in s:
+        if ch == '(':
+            depth += 1
+        elif ch == ')':
+            depth -= 1
+        if ch == ',' and depth == 0:
+            out.append(cur.strip()); cur = ''
+        else:
+            cur += ch
+    if cur.strip():
+        out.append(cur.strip())
+    return out
+
+
+def cfg_eval(pred: str, features=()):
+    """Evaluate a cfg predicate for the configuration the checks assume: the listed cargo features on,
+    not(test), native (non-wasm) target.  Unknown atoms evaluate to False."""
+    pred = pred.strip()
+    m = re.match(r'^(all|any|not)\s*\((.*)\)$', pred, re.S)
+    if m:
+        parts = [cfg_eval(x, features) for x in _split_top(m.group(2))]
+        if m.group(1) == 'all':
+            return all(parts)
+        if m.group(1) == 'any':
+            return any(parts)
+        return not parts[0]
+    m = re.match(r'^feature\s*=\s*"([^"]*)"$', pred)
+    if m:
+        return m.group(1) in features
+    m = re.match(r'^target_arch\s*=\s*"([^"]*)"$', pred)
+    if m:
+        return m.group(1) == 'x86_64'
+    m = re.match(r'^target_os\s*=\s*"([^"]*)"$', pred)
+    if m:
+        return m.group(1) == 'linux'
+    if pred in ('unix',):
+        return True
+    return False
+
+
+def cfg_attrs_active(text_before: str, features=()):
+    """text_before: source text directly preceding an item (its attributes and doc comments).
+    Returns False if any #[cfg(..)] among the trailing attributes evaluates to false."""
+    msk = mask(text_before, keep_strings=True)
+    ok = True
+    for m in re.finditer(r'#\s*\[\s*cfg\s*\(', msk):
+        ob = msk.find('(', m.start())
+        cb = match_close(msk, ob)
+        if not cfg_eval(text_before[ob + 1:cb], features):
+            ok = False
+    return ok
+
+
+def strip_cfg_disabled(src: str, features=()):
+    """Inside an item (struct/enum body), drop fields/variants whose #[cfg(..)] is false."""
+    msk = mask(src, keep_strings=True)
+    out, i = [], 0
+    for m in re.finditer(r'#\s*\[\s*cfg\s*\(', msk):
+        if m.start() < i:
+            continue
+        ob = msk.find('(', m.start())
+        cb = match_close(msk, ob)
+        close_attr = msk.find(']', cb)
+        if cfg_eval(src[ob + 1:cb], features):
+            continue
+        # drop from attribute start to the next ',' at depth 0 (or the closing brace of the item)
+        k, depth = close_attr + 1, 0
+        m2 = mask(src)
+        while k < len(src):
+            ch = m2[k]
+            if ch in '([{<':
+                depth += 1
+            elif ch in ')]}' or (ch == '>' and m2[k - 1] != '-'):
+                if depth == 0:
+                    break
+                depth -= 1
+            elif ch == ',' and depth == 0:
+                k += 1
+                break
+            k += 1
+        out.append(src[i:m.start()])
+        i = k
+    out.append(src[i:])
+    return ''.join(out)
